@@ -31,7 +31,7 @@ def plan(tier, seed):
 
 
 def floors(tier):
-    return {"evaluations": 100, "strata": ["default-scale/svg", "default-scale/tikz", "own-scale/svg", "own-scale/tikz", "repeated-export", "shared-data-objects"],
+    return {"evaluations": 100, "strata": ["default-scale/svg", "default-scale/tikz", "own-scale/svg", "own-scale/tikz", "repeated-export", "shared-data-objects", "value-equal-twin"],
             "events": {"history_processes": 30, "reference_processes": 60, "noninterference": 100}, "distinct_nontrivial": 30, "max_inconclusive_frac": 0.05}
 
 
@@ -56,6 +56,7 @@ def gen_history(rng):
         backends.append(rng.choice(["svg", "tikz"]))
     # some timelines are given the very data objects of an earlier one (same values, own options: another direction/back-end)
     share = {}
+    twins = []
     import copy
 
     for k in range(1, nt):
@@ -70,6 +71,26 @@ def gen_history(rng):
                     s["options"]["layerGap"] = rng.choice([20, 45])
             specs[k] = s
             share[str(k)] = j
+    # twins: equal geometry, texts and options, but built from their own datum dicts, which differ in the field the colour
+    # functions read (whatever is remembered by VALUE of the geometry must not carry another timeline's data)
+    for k in range(1, nt):
+        if str(k) not in share and k not in share.values() and rng.random() < 0.25:
+            j = rng.randrange(k)
+            if str(j) in share:
+                continue
+            s = copy.deepcopy(specs[j])
+            if s["options"] is None:
+                continue
+            for d in s["data"]:
+                d["uid"] = d["uid"] + rng.choice([1, 3, 7])
+            for cname in rng.sample(["dotColor", "linkColor", "labelBgColor", "labelTextColor"], 2):
+                fnname = rng.choice(["by_uid6", "by_uid3", "by_parity"])
+                s["options"][cname] = {"fn": fnname}
+                if specs[j]["options"] is not None:
+                    specs[j]["options"][cname] = {"fn": fnname}
+            specs[k] = s
+            backends[k] = backends[j]
+            twins.append(k)
     # operations: every timeline constructed once; exports interleaved; at least one export after a later
     # construction and one repeated export
     ops = [["new", 0], ["new", 1], ["export", 0], ["export", 0], ["export", 1]]
@@ -79,7 +100,7 @@ def gen_history(rng):
     ops.append(["export", 0])
     if rng.random() < 0.5:
         ops.append(["export", rng.randrange(nt)])
-    return {"specs": specs, "backends": backends, "ops": ops, "share_data": share}
+    return {"specs": specs, "backends": backends, "ops": ops, "share_data": share, "twins": twins}
 
 
 def run_proc(h, timeout=600, hashseed="0"):
@@ -157,6 +178,8 @@ def run_history(ctx, h, refs):
         sh = h.get("share_data") or {}
         if str(k) in sh or k in sh.values():
             ctx.stratum("shared-data-objects", generated=1, judged=1, held=1)
+        if k in (h.get("twins") or []):
+            ctx.stratum("value-equal-twin", generated=1, judged=1, held=1)
         ctx.judge(stratum, HELD, None, nontrivial=nontriv, dig=digest([h, e["op"]]))
     if len(ctx.samples) < 1:
         ctx.samples.append({"ops": h["ops"], "backends": h["backends"], "n_data": [len(s["data"]) for s in h["specs"]],
